@@ -310,6 +310,9 @@ func (e mwEngine) Gen(t *rapid.T, tier string) any {
 			if sendUniq && rapid.IntRange(0, 3).Draw(t, "force-down-event") > 0 {
 				d.T = "EVENT"
 			}
+			if rapid.IntRange(0, 5).Draw(t, "dsleep") == 0 {
+				d.T = "SLEEP"
+			}
 			d.Sub = rapid.SampledFrom(subs[:quota+2]).Draw(t, "dsub")
 			d.Ev = rapid.IntRange(0, nev-1).Draw(t, "dev")
 			cl.Down = append(cl.Down, d)
@@ -650,6 +653,14 @@ func (d *mwDownstream) emitLoop(ctx context.Context, ci int, s *mwSession, send 
 		verifsim.Yield(fmt.Sprintf("down%d.em", ci))
 		var m mocrelay.ServerMsg
 		switch e.T {
+		case "SLEEP":
+			// the rest of the stream comes later (when a client script advances the clock)
+			select {
+			case <-time.After(500 * time.Millisecond):
+			case <-ctx.Done():
+				return
+			}
+			continue
 		case "EOSE":
 			m = mocrelay.NewServerEOSEMsg(e.Sub)
 		case "EVENT":
